@@ -40,6 +40,8 @@ func scenarios(thorough bool) []scen {
 		{"txn,txn|close", base, []string{"txn,txn"}, true},
 		{"thr-hold|txn,view|close", base, []string{"thr-on", "txn,view"}, true},
 		{"set|set|set(queue=2)", base, []string{"set", "set", "set"}, false},
+		// a transaction begins (and waits for the commit watermark) while another one commits
+		{"txn|view", base, []string{"txn", "view"}, false},
 	}
 	if thorough {
 		s = append(s,
